@@ -579,7 +579,7 @@ pub fn run(ctx: &Ctx) -> PropertyReport {
     rep.assume("serde_json is built with float_roundtrip so that a parser shortcut of the JSON library cannot masquerade as an rbx_types defect");
     let sub = crate::engine::replay_subcheck_or_all(ctx);
     if sub.runs("codecs") {
-        let cases = ctx.cfg.cases(300_000, 5_000_000);
+        let cases = ctx.cfg.cases(300_000, 30_000_000);
         let mut r = ctx.run_prop(
             "codecs",
             cases,
@@ -595,7 +595,7 @@ pub fn run(ctx: &Ctx) -> PropertyReport {
         rep.push(concurrent_nested(ctx));
     }
     if sub.runs("after-failure") {
-        let cases = ctx.cfg.cases(60_000, 1_000_000);
+        let cases = ctx.cfg.cases(60_000, 6_000_000);
         let strat = || (any_value(true), proptest::collection::vec(any::<u8>(), 1..4)).prop_map(|(v, junk)| AfterFailure { val: v.val, junk });
         let mut r = ctx.run_prop("after-failure", cases, strat, after_failure_body);
         r.floor("decode_rejected_before", cases / 4);
@@ -619,7 +619,7 @@ pub fn run(ctx: &Ctx) -> PropertyReport {
         rep.push(ctx.run_list("long-values", cases, true, long_val_body));
     }
     if sub.runs("text") {
-        let cases = ctx.cfg.cases(200_000, 3_000_000);
+        let cases = ctx.cfg.cases(200_000, 15_000_000);
         let strat = || {
             prop_oneof![
                 2 => any::<u128>().prop_map(TextCase::Ref),
